@@ -203,3 +203,48 @@ def pending_discipline(ctx, F, body0, prefix, label):
             ctx.check(ok, prefix, "pending-without-waker:%s#%d" % (label, n),
                       "%s answers Pending only after a child poll of this call returned Pending or after waking itself" % label, s["span"])
     return n
+
+
+SOCKET_ADTS = ("selium_server::topic::pubsub::Socket", "selium_server::topic::reqrep::Socket")
+_SOCKET_PASS = {"pin", "new", "split", "into", "from", "boxed", "into_inner", "unsize", "box_new"}
+
+
+def socket_pass_through(ctx, F, prefix):
+    """what the server hands to a topic is the peer's own framed stream / sink, boxed and nothing else: no stream or sink adapter
+    (filter, map, take_while, with, buffer ..) sits between the split of the BiStream and the socket — an adapter silently changes
+    which frames reach the subscribers"""
+    hs = handle_stream_body(ctx, F)
+    defs = {}
+    for i, j, pl, rv, s in hs.assigns():
+        if not pl["p"]:
+            defs.setdefault(pl["l"], []).append(("rv", rv))
+    for c in hs.calls():
+        if c.dest is not None and not c.dest["p"]:
+            defs.setdefault(c.dest["l"], []).append(("call", c))
+    n = 0
+    for i, j, pl, rv, s in hs.assigns():
+        if not (rv["k"] == "agg" and rv.get("agg") == "adt" and rv.get("adt") in SOCKET_ADTS):
+            continue
+        n += 1
+        seen, todo, bad, src = set(), [op_local(o) for o in rv["ops"]], [], False
+        while todo:
+            l = todo.pop()
+            if l is None or l in seen:
+                continue
+            seen.add(l)
+            for kind, d in defs.get(l, []):
+                if kind == "rv":
+                    todo.extend(rv_locals(d))
+                else:
+                    nm = d.name()
+                    if nm == "split":
+                        src = True
+                        continue
+                    if nm not in _SOCKET_PASS:
+                        bad.append(d)
+                    todo.extend(op_local(a) for a in d.args)
+        ctx.check(src and not bad, prefix + ".socket-pass-through", "handle_stream:socket-adapted:%s" % rv["variant"],
+                  "the %s socket handed to the topic is the split stream itself, boxed (%s)" % (rv["variant"], ", ".join(sorted({strip_generics(c.callee) for c in bad})) or "no adapter in between"),
+                  (bad[0].span if bad else s.get("span", hs.span)))
+    ctx.check(n >= 4, prefix + ".socket-pass-through", "handle_stream:sockets-missing", "the four socket constructions of handle_stream were analysed (%d)" % n, hs.span)
+
